@@ -126,6 +126,8 @@ func (clnt *Clnt) Rpc(tc *Fcall) (rc *Fcall, err error) {
 	r.Done = make(chan *Req)
 	err = clnt.Rpcnb(r)
 	if err != nil {
+		/* the request was refused, nobody else knows it: give its tag back */
+		clnt.ReqFree(r)
 		return
 	}
 
